@@ -131,7 +131,7 @@ package geom
 //@   allocbound 48 * len(p.body) + 64
 //@   ensures Adv(p) && p.bo == old(p.bo) && p.no == old(p.no)
 //@   loop 0 invariant 0 <= i && i <= n && len(geoms) == n && Adv(p) && p.bo == old(p.bo) && p.no == old(p.no) && fresh(geoms) && p != nil
-//@   loop 0 assume forall k :: 0 <= k && k < i ==> GInv(geoms[k]) && CTypeOf(geoms[k]) == ctype   // frame of the recursive invariant across the store into the fresh slice: see DESIGN (A-frame-rp)
+//@   loop 0 assume forall k :: 0 <= k && k < i ==> GShape(geoms[k]) && GInv(geoms[k]) && CTypeOf(geoms[k]) == ctype   // frame of the recursive invariant across the store into the fresh slice: see DESIGN (A-frame-rp)
 
 //@ func UnmarshalWKB
 //@   ovfcheck
